@@ -31,6 +31,15 @@ package main
 // when the failure happens after the server stopped writing (end of input, malformed or truncated
 // message, failed write, cancellation). The finding names the run and the stop point.
 //
+// Every message the server writes must be readable: the output reader decodes each item, its
+// envelope and its payload with the CBOR library's default (validating) options; an item a standard
+// decoder refuses - e.g. a text string that is not valid UTF-8 because an echoed ID was cut inside a
+// character - is a finding, and the run it was meant for has no readable terminal message.
+//
+// Behaviour "waitsig": the step handler returns only when the signal handler of its run has been
+// called with its stream position (`src`), i.e. its completion depends on the read loop delivering a
+// later message. The harness's own gates and the end-of-script release do NOT open it.
+//
 // Oracle findings (prop C07): process crash, RunATPServer not returning after input ended and all
 // handlers were released, a run whose number of terminal messages differs from the number of its
 // accepted work-starts while the output was open, corrupted output framing.
@@ -117,6 +126,8 @@ type atpsErrOut struct {
 
 type atpsSigIn struct {
 	Beh string `json:"beh"`
+	// stream position of a work-start whose "waitsig" handler this signal releases (0 = none)
+	Src int64 `json:"src"`
 }
 
 func atpsProp(t schema.Type, required bool) *schema.PropertySchema {
@@ -130,6 +141,8 @@ type atpsRunner struct {
 	gateMu  sync.Mutex
 	openAll bool
 	quiet   bool // stress child: handlers neither log nor wait
+	// "waitsig": opened only by the plugin's signal handler
+	sigGates map[int]chan struct{}
 	// number of calls of step "pinit"'s initializer that still have to panic
 	initBudget int32
 	runIDs  map[string]int
@@ -176,6 +189,31 @@ func (r *atpsRunner) release(src int) {
 	}
 }
 
+func (r *atpsRunner) sigGate(src int) chan struct{} {
+	r.gateMu.Lock()
+	defer r.gateMu.Unlock()
+	if r.sigGates == nil {
+		r.sigGates = map[int]chan struct{}{}
+	}
+	g, ok := r.sigGates[src]
+	if !ok {
+		g = make(chan struct{})
+		r.sigGates[src] = g
+	}
+	return g
+}
+
+func (r *atpsRunner) openSigGate(src int) {
+	g := r.sigGate(src)
+	r.gateMu.Lock()
+	defer r.gateMu.Unlock()
+	select {
+	case <-g:
+	default:
+		close(g)
+	}
+}
+
 // releaseAll opens every gate, including those of handlers that are entered later.
 func (r *atpsRunner) releaseAll() {
 	r.gateMu.Lock()
@@ -207,7 +245,11 @@ func (r *atpsRunner) stepHandler(_ context.Context, _ any, in atpsIn) (string, a
 		r.events = append(r.events, map[string]any{"e": "enter", "src": src})
 		r.entered[src] = true
 		r.mu.Unlock()
-		<-r.gate(src)
+		if in.Beh == "waitsig" {
+			<-r.sigGate(src)
+		} else {
+			<-r.gate(src)
+		}
 		r.mu.Lock()
 		r.events = append(r.events, map[string]any{"e": "exit", "src": src, "b": atpsBehClass(in.Beh)})
 		r.exited[src] = true
@@ -227,6 +269,9 @@ func (r *atpsRunner) stepHandler(_ context.Context, _ any, in atpsIn) (string, a
 }
 
 func (r *atpsRunner) sigHandler(_ context.Context, _ any, in atpsSigIn) {
+	if in.Src > 0 {
+		r.openSigGate(int(in.Src))
+	}
 	if in.Beh == "panic" {
 		panic("signal handler panic requested")
 	}
@@ -235,6 +280,9 @@ func (r *atpsRunner) sigHandler(_ context.Context, _ any, in atpsSigIn) {
 type atpsStepData struct{ n int }
 
 func (r *atpsRunner) sigHandler2(_ context.Context, _ *atpsStepData, in atpsSigIn) {
+	if in.Src > 0 {
+		r.openSigGate(int(in.Src))
+	}
 	if in.Beh == "panic" {
 		panic("signal handler panic requested")
 	}
@@ -265,6 +313,7 @@ func (r *atpsRunner) plugin() *schema.CallableSchema {
 	sigSchema := func() *schema.ScopeSchema {
 		return schema.NewScopeSchema(schema.NewStructMappedObjectSchema[atpsSigIn]("SigInput", map[string]*schema.PropertySchema{
 			"beh": atpsProp(schema.NewStringSchema(nil, nil, nil), true),
+			"src": atpsProp(schema.NewIntSchema(nil, nil, nil), false),
 		}))
 	}
 	// "hello": step data of interface type without initializer (as in the SDK's own tests)
@@ -496,7 +545,7 @@ func atpsRunSession(sess *atpsSession, to atpsTimeouts) (out atpsOutcome) {
 			var m atp.DecodedRuntimeMessage
 			if err := cbor.Unmarshal(raw, &m); err != nil {
 				outMu.Lock()
-				outFindings = append(outFindings, "output item is not a runtime message: "+err.Error())
+				outFindings = append(outFindings, "the server wrote a message that a standard CBOR decoder refuses (envelope): "+err.Error())
 				outMu.Unlock()
 				continue
 			}
@@ -505,7 +554,7 @@ func atpsRunSession(sess *atpsSession, to atpsTimeouts) (out atpsOutcome) {
 				var wd atp.WorkDoneMessage
 				if err := cbor.Unmarshal(m.RawMessageData, &wd); err != nil {
 					outMu.Lock()
-					outFindings = append(outFindings, "work-done payload does not decode: "+err.Error())
+					outFindings = append(outFindings, fmt.Sprintf("the server wrote a work-done message for run %q that a standard CBOR decoder refuses: %v", m.RunID, err))
 					outMu.Unlock()
 				}
 				r.mu.Lock()
@@ -519,7 +568,7 @@ func atpsRunSession(sess *atpsSession, to atpsTimeouts) (out atpsOutcome) {
 				var em atp.ErrorMessage
 				if err := cbor.Unmarshal(m.RawMessageData, &em); err != nil {
 					outMu.Lock()
-					outFindings = append(outFindings, "error payload does not decode: "+err.Error())
+					outFindings = append(outFindings, fmt.Sprintf("the server wrote an error message for run %q that a standard CBOR decoder refuses (the run has no readable terminal message): %v", m.RunID, err))
 					outMu.Unlock()
 				}
 				r.mu.Lock()
@@ -563,13 +612,23 @@ func atpsRunSession(sess *atpsSession, to atpsTimeouts) (out atpsOutcome) {
 		}
 	}()
 	var lastAck chan struct{}
+	// once the server has left a write unread for the whole timeout it is taken to have stopped
+	// reading: later writes are only waited for briefly (a session in which the read loop is stuck
+	// would otherwise cost one timeout per message)
+	stalledReader := false
 	waitAck := func(d time.Duration) {
 		if lastAck == nil {
 			return
 		}
+		if stalledReader && d > 20*time.Millisecond {
+			d = 20 * time.Millisecond
+		}
 		select {
 		case <-lastAck:
 		case <-time.After(d):
+			if d >= to.write {
+				stalledReader = true
+			}
 		}
 	}
 	for _, a := range sess.Actions {
@@ -870,6 +929,22 @@ func atpsSig(run any, sig string, beh any) map[string]any {
 	return m
 }
 
+// atpsRelease is the signal that lets the "waitsig" handler at stream position src return.
+func atpsRelease(run string, src int) map[string]any {
+	return map[string]any{"id": uint32(3), "run_id": run, "data": map[string]any{"signal_id": "sig", "data": map[string]any{"beh": "ok", "src": src}}}
+}
+
+// atpsLongIDs are IDs longer than 64 bytes in multi-byte scripts; a cut after 48 or 64 BYTES falls
+// inside a character for most of them.
+var atpsLongIDs = []string{
+	strings.Repeat("語", 30),
+	"x" + strings.Repeat("日本語のステップ", 6),
+	"шаг-" + strings.Repeat("который-не-существует-", 4),
+	strings.Repeat("단계가없습니다", 5),
+	"ab" + strings.Repeat("🚀", 20),
+	"step-" + strings.Repeat("é", 40),
+}
+
 func atpsClientDone() map[string]any {
 	return map[string]any{"id": uint32(4), "run_id": "", "data": map[string]any{}}
 }
@@ -910,6 +985,9 @@ func (g *atpsGen) message(idx int, runs *[]string) (b []byte, gated bool, note s
 	case k < 42: // unknown step
 		run := newRun()
 		g.unkRuns = append(g.unkRuns, run)
+		if g.r.Intn(2) == 0 {
+			return atpsEnc(atpsWS(run, atpsLongIDs[g.r.Intn(len(atpsLongIDs))], "x", beh, idx)), true, "ws-unknown-step-long-id"
+		}
 		return atpsEnc(atpsWS(run, "no-such-step", "x", beh, idx)), true, "ws-unknown-step"
 	case k < 45: // input rejected by the schema
 		m := atpsWS(newRun(), step, "x", beh, idx)
@@ -945,6 +1023,9 @@ func (g *atpsGen) message(idx int, runs *[]string) (b []byte, gated bool, note s
 	case k < 66: // signals
 		switch g.r.Intn(6) {
 		case 0:
+			if g.r.Intn(2) == 0 {
+				return atpsEnc(atpsSig(someRun(), atpsLongIDs[g.r.Intn(len(atpsLongIDs))], "ok")), false, "sig-unknown-signal-long-id"
+			}
 			return atpsEnc(atpsSig(someRun(), "no-such-signal", "ok")), false, "sig-unknown-signal"
 		case 1:
 			return atpsEnc(atpsSig("ghost", "sig", "ok")), false, "sig-unknown-run"
@@ -1140,6 +1221,44 @@ func atpsDirected(nextID func() int) []*atpsSession {
 		withInit(2, mk("initializer panics in the step and again in its signal's goroutine", send(atpsWS("r1", "pinit", "a", "ok", 1)), atpsAction{Op: "settle"}, send(atpsSig("r1", "sig", "ok")), atpsAction{Op: "settle"}, send(atpsWS("r2", "pinit", "b", "ok", 3)), rel(3), send(atpsClientDone()))),
 		withInit(2, mk("initializer panics twice, third run fine, EOF", send(atpsWS("r1", "pinit", "a", "ok", 1)), send(atpsWS("r2", "pinit", "b", "ok", 2)), send(atpsWS("r3", "pinit", "c", "ok", 3)), atpsAction{Op: "closeInput"}, rel(1), rel(2), rel(3))),
 	)
+	// unknown step and signal IDs that are long and not ASCII: they are echoed in the error message
+	for i, id := range atpsLongIDs {
+		out = append(out, mk(fmt.Sprintf("unknown step ID #%d, %d bytes, multi-byte", i, len(id)),
+			send(atpsWS("r1", id, "a", "ok", 1)), atpsAction{Op: "settle"}, send(atpsWS("r2", "hello", "b", "ok", 2)), rel(2),
+			send(atpsSig("r2", id, "ok")), send(atpsSig("r1", id, "ok")), atpsAction{Op: "settle"}, send(atpsClientDone())))
+	}
+	// many runs in progress, each finishing only when a later message (its release signal) is
+	// delivered: all started before the first signal is sent; released in order and in reverse order
+	for _, reverse := range []bool{false, true} {
+		const nRuns = 72
+		var acts []atpsAction
+		var chunk []byte
+		for i := 1; i <= nRuns; i++ {
+			step := "hello"
+			if i%3 == 0 {
+				step = "init"
+			}
+			chunk = append(chunk, atpsEnc(atpsWS(fmt.Sprintf("w%d", i), step, "a", "waitsig", i))...)
+			if i%1 == 0 {
+				acts = append(acts, atpsAction{Op: "send", Bytes: chunk})
+				chunk = nil
+			}
+		}
+		acts = append(acts, atpsAction{Op: "settle"}, atpsAction{Op: "settle"})
+		for k := 1; k <= nRuns; k++ {
+			i := k
+			if reverse {
+				i = nRuns + 1 - k
+			}
+			chunk = append(chunk, atpsEnc(atpsRelease(fmt.Sprintf("w%d", i), i))...)
+			if k%1 == 0 {
+				acts = append(acts, atpsAction{Op: "send", Bytes: chunk})
+				chunk = nil
+			}
+		}
+		acts = append(acts, send(atpsClientDone()))
+		out = append(out, mk(fmt.Sprintf("%d runs in progress, each released by a later signal (reverse=%v)", nRuns, reverse), acts...))
+	}
 	// a run ID reused after its execution completed (runningSteps is never pruned; the model's
 	// `running` list is not either, and a repeated run ID is accepted)
 	out = append(out,
